@@ -403,9 +403,9 @@ MONITOR_PROPS = {
     "WrittenBlocksStat": [],
     "NotReused": ["C14"],
     "UnchangedWroteBlocks": ["C14"],
-    "ListFailed": ["C08", "C12", "C15", "C03"],
+    "ListFailed": ["C08", "C12", "C15", "C03", "C13"],
     "ListingNotIncreasing": ["C08", "C11"],
-    "ListingDiffers": ["C08", "C12", "C15", "C03"],
+    "ListingDiffers": ["C08", "C12", "C15", "C03", "C13"],
     "ValidateFalseAlarm": ["C09"],
     "ValidateSilent": ["C09"],
     "VersionsWrong": ["C03"],
